@@ -2,12 +2,11 @@ CONSTANTS
   Senders = {1, 2, 3}
   Nonces = {1, 2, 3}
   Classes = {0, 1, 2}
-  MaxOps = 6
+  MaxOps = 7
   MaxPending = 4
   EmitAt = 0
 INIT GInit
-NEXT GNext
+NEXT GNextC
 VIEW GView
 CONSTRAINT GConstr
-INVARIANT Emit
 CHECK_DEADLOCK FALSE
